@@ -123,6 +123,13 @@ type UnexpA struct {
 	Pub     string `class:"public"`
 }
 
+// Ign: the type listed in Filter.IgnoreTypes (as *Ign) by the "ignore" cases
+type Ign struct {
+	Pub string `class:"public"`
+	Sec string `class:"secret"`
+	Unt string
+}
+
 // EWI: a payload implementing EventWrapperInfo around generated data
 type EWI struct {
 	EvID string `class:"public"`
@@ -151,6 +158,7 @@ var handTypes = map[string]reflect.Type{
 	"TStructB": reflect.TypeOf(TStructB{}),
 	"UnexpA":   reflect.TypeOf(UnexpA{}),
 	"EWI":      reflect.TypeOf(EWI{}),
+	"Ign":      reflect.TypeOf(Ign{}),
 }
 
 // names <-> N
@@ -228,6 +236,8 @@ func typeOf(v *V) reflect.Type {
 		return reflect.StructOf(fs)
 	case "hand":
 		return handTypes[v.Hand]
+	case "iface":
+		return tIface
 	case "ptr", "nilptr":
 		return reflect.PointerTo(typeOf(v.Elem))
 	case "slice":
@@ -332,6 +342,10 @@ func valueOf(v *V) reflect.Value {
 		return p
 	case "nilptr":
 		return reflect.Zero(t)
+	case "iface":
+		r := reflect.New(tIface).Elem()
+		r.Set(valueOf(v.Elem))
+		return r
 	case "slice":
 		r := reflect.MakeSlice(t, 0, len(v.Elems))
 		for _, e := range v.Elems {
@@ -378,13 +392,11 @@ func parsePtr(ptr string, forStruct bool) string {
 		}
 		return fmt.Sprintf("Some (%s, %s)", hc.N(nameN(parts[0])), hc.N(nameN(parts[1])))
 	}
-	switch len(parts) {
-	case 1:
-		return fmt.Sprintf("Some (TKey %s)", hc.N(nameN(parts[0])))
-	case 2:
-		return fmt.Sprintf("Some (TNested %s %s)", hc.N(nameN(parts[0])), hc.N(nameN(parts[1])))
+	ns := make([]int, len(parts))
+	for i, p := range parts {
+		ns[i] = nameN(p)
 	}
-	return "None"
+	return "Some (TPath " + hc.NList(ns) + ")"
 }
 
 func tagsLit(ts []PTag, forStruct bool) string {
@@ -516,7 +528,7 @@ func (v *V) size() int {
 	for _, f := range v.Fields {
 		n += f.V.size()
 	}
-	if v.K == "ptr" {
+	if v.K == "ptr" || v.K == "iface" {
 		n += v.Elem.size()
 	}
 	for _, e := range v.Elems {
